@@ -29,6 +29,7 @@ class TooLarge(Exception):
 
 DIVERSIFY = None      # a random.Random during cross-check sampling
 _DIVERSE = {}
+PROTECTED = set()     # symbols constrained by quantified axioms (class invariants): never diversified
 
 
 def mval(m, t):
@@ -40,7 +41,8 @@ def mval(m, t):
         raise TooLarge('sum term in input')
     if not S.is_z3(t):
         return t
-    if DIVERSIFY is not None and z3.is_real(t) and z3.is_app(t) and t.decl().kind() == z3.Z3_OP_UNINTERPRETED:
+    if DIVERSIFY is not None and z3.is_real(t) and z3.is_app(t) and t.decl().kind() == z3.Z3_OP_UNINTERPRETED \
+            and t.decl().name() not in PROTECTED:
         # cross-check sampling: a real-valued input element the model leaves open (a don't-care: the partial
         # model satisfies the path condition for every completion) gets a small non-zero value instead of 0
         v0 = m.eval(t, model_completion=False)
